@@ -46,8 +46,8 @@ from common import run_driver, widths, DEVNAMES  # noqa: E402
 import asmcommon as ac  # noqa: E402
 
 ID = 'C07'
-LEAN_MODULES = ['Py65.Props.C07']
-NAMESPACES = ['Py65.Props.C07']
+LEAN_MODULES = ['Py65.Props.C07'] + ac.ASM_GEN_MODULES + ['Py65.Props.C07g']
+NAMESPACES = ['Py65.Props.C07', 'Py65.Proofs.AsmGenEq', 'Py65.Props.C07g']
 LEVEL = 'proof'
 USES_GEN = True
 EXPECTED_THEOREMS = [
@@ -57,16 +57,21 @@ EXPECTED_THEOREMS = [
     'Py65.Props.C07.asm_text', 'Py65.Props.C07.asm_text_imm', 'Py65.Props.C07.asm_text_char',
     'Py65.Props.C07.asm_text_acc', 'Py65.Props.C07.asm_text_none', 'Py65.Props.C07.asm_ws_case',
     'Py65.Props.C07.asm_total', 'Py65.Props.C07.asm_sound_partial', 'Py65.Props.C07.asm_spelling_hex',
-]
+] + ac.ASM_GEN_THEOREMS + ['Py65.Props.C07g.' + t for t in (
+    'asm_core', 'asm_zp_order', 'asm_abs_form', 'asm_branch', 'asm_backend_sound', 'asm_text', 'asm_spelling_hex',
+    'asm_text_imm', 'asm_text_char', 'asm_text_acc', 'asm_text_none', 'asm_ws_case', 'asm_total',
+    'asm_sound_partial')]
+pre_build = ac.pre_build_asm          # tie 1: regenerate lean/Py65/Gen/AsmGen.lean from the current source
 RULE = ('devices x (mnemonic, shape) cross product enumerated; values, addresses, spellings and blank patterns '
         'from boundary classes then random.  distinct = distinct (device, pc, radix, labels, text) inputs; '
         'nontrivial = the real assembler returned bytes, or refused a statement whose mnemonic the device '
         'declares (the refusal is then about mode, range, syntax or the top of memory, not an unknown word)')
-TRUSTED = [
+TRUSTED = ac.ASM_GEN_TRUSTED + [
     'hand model Py65.Model.Asm (normalize_and_split, Statement regex as a deterministic scanner, ordered '
-    'templates, list.index, branch computation, top-of-memory check) -- tied to the code by sampled '
-    'correspondence only (this check), not by translation; opcode tables, widths and formats are the '
-    'regenerated Py65.Gen.Tables',
+    'templates, list.index, branch computation, top-of-memory check): its control flow is no longer trusted -- '
+    'it is proved equal to the regenerated Py65.Gen.AsmGen (above) -- and it is in addition tied to the code by '
+    'the sampled correspondence of this check; opcode tables, widths and formats are the regenerated '
+    'Py65.Gen.Tables',
     "CPython 3.12 `re` (Statement, the compiled templates), str.split/strip/upper/join, %-formatting and "
     'int(str, 16) are modelled for ASCII input, not verified',
     'Spec.Asm (documented encoding and token syntax, from Spec/Isa.lean) and its Python transcription in '
@@ -74,6 +79,10 @@ TRUSTED = [
     'Py65.Model.AddrParser for the operand values (C15)',
 ]
 ASSUMPTIONS = [
+    'the theorems of Props/C07g.lean are about the functions GENERATED from the current py65/assembler.py; what they '
+    'assume about Python is the library behaviour listed under trusted_base (regex engine, str methods, formatting, '
+    'int(), list.index, AddressParser.number) as modelled by lean/Py65/Model/AsmRt.lean, and that Assembler instances '
+    'hold no state beyond the mpu, the parser and the template list (the translator refuses any other attribute)',
     'statement text over printable ASCII + tab (blanks are space and tab); other white space that '
     'str.split() accepts and non-ASCII text are outside the claim',
     'label tables hold identifier-like names (letter or _ first, then letters, digits, _ .; not A/a) with '
